@@ -11,3 +11,4 @@ UNDECIDED = "end-to-end text equality (rests on C01-C04 for the library and on r
 ASSUMPTIONS = ["clap derives `--field-name` long flags from field names", "ryu / Display print f32 shortest-round-trip", K.A_PRED]
 OBLIGATIONS = [K.COMPAT, K.OPTION_FLOW, K.RESTRICT, K.WRITER_SIBS, K.HANDOVER, K.QUEUES, K.PARSE_ERRORS, K.WIG_KEEP, K.BED_KEEP]
 OBLIGATIONS = OBLIGATIONS + [K.SOURCE_SIBS]
+OBLIGATIONS = OBLIGATIONS + [K.ARG_NAMES]
